@@ -44,6 +44,7 @@ type scenario struct {
 	Streams    bool        `json:"streams"`    // URL form prefix/channel/Streams(track.ext)
 	Tsbd       int         `json:"tsbd"`
 	Pred       *genPred    `json:"pred,omitempty"`
+	GenF       int64       `json:"genF"` // Src == tlc: real ticks per tick of the model
 	testdata   string      // directory with real segments (Src == testdata)
 	tdFrom     int
 }
@@ -54,6 +55,9 @@ type genPred struct {
 	TS     int64   `json:"ts"` // master ticks of the model (abstract)
 	SS     int64   `json:"ss"`
 	Stored [][]int `json:"stored"` // [track index, n, t] in the model's units
+	F      int64   `json:"f"`      // real ticks per tick of the model
+	Abs    bool    `json:"abs"`    // numbers and times of the model are the real ones (stream near time zero)
+	TolA   int64   `json:"tolA"`   // the model counts in coarser ticks: agreement of the second track's times up to its roundings
 }
 
 // genLine: one GEN line of spec/ReceiverShift.tla.
@@ -104,17 +108,18 @@ func fromGen(g genLine, idx int, variant int) scenario {
 	d := int64(g.DSec) * tm
 	t0 := int64(g.T0) * f
 	sc := scenario{ID: fmt.Sprintf("tlc%d.%d", idx, variant), Src: "tlc", Tm: uint32(tm), D: d, StartNr: g.StartNr, Short: g.Short,
-		K: g.NSeg - g.Short, Creation: 0, Tsbd: 60}
-	// first REGULAR master segment: after the short ones (each short one lasts D/2 in the model)
-	treg := t0 + int64(g.Short)*(d/2)
+		K: g.NSeg - g.Short, Creation: 0, Tsbd: 60, GenF: f}
+	// first REGULAR master segment: after the short one (which lasts one second in the model)
+	treg := t0 + int64(g.Short)*tm
 	sc.G = treg / d
 	sc.Off = treg % d
 	// model: number of master segment j (j = 0 is the first uploaded) = t0 div D + k + startNr + j
 	sc.NB = int64(g.T0)/(int64(g.DSec)*int64(g.Tm)) + int64(g.K0) + int64(g.StartNr) + int64(g.Short)
 	if variant == 1 {
-		sc.G += epochG2s * 2 / int64(g.DSec) / 6 * 6
+		b := int64(epochG2s) * 2 / int64(g.DSec) // whole grid steps: exact in every timescale
+		sc.G += b
 		if g.K0 < 5 {
-			sc.NB += epochG2s * 2 / int64(g.DSec) / 6 * 6
+			sc.NB += b
 		}
 	}
 	sc.Tracks = []trackSpec{
@@ -126,7 +131,8 @@ func fromGen(g genLine, idx int, variant int) scenario {
 	if g.AFirst {
 		sc.RoundOrder = []int{1, 0}
 	}
-	sc.Pred = &genPred{Tuned: g.Tuned, TS: int64(g.TS) * f, SS: int64(g.SS), Stored: g.Stored}
+	sc.Pred = &genPred{Tuned: g.Tuned, TS: int64(g.TS) * f, SS: int64(g.SS), Stored: g.Stored, F: f, Abs: variant == 0,
+		TolA: f * int64(2+(g.Ta+g.Tm-1)/g.Tm)}
 	sc.Class = classOf(&sc)
 	return sc
 }
